@@ -36,6 +36,7 @@ import (
 	"time"
 
 	"github.com/rqlite/rqlite/v10/command/proto"
+	csql "github.com/rqlite/rqlite/v10/command/sql"
 	sql "github.com/rqlite/rqlite/v10/db"
 	"github.com/rqlite/rqlite/v10/internal/verif/vsql"
 	"github.com/rqlite/rqlite/v10/internal/verif/vstat"
@@ -53,7 +54,15 @@ func (g *c17Gen) pct(p int) bool         { return g.rng.IntN(100) < p }
 func (g *c17Gen) read() string {
 	return g.of("SELECT * FROM t", "SELECT count(*) FROM t WHERE n > 1", "SELECT 1", "VALUES (1)", "select v from t order by id limit 2",
 		"WITH x AS (SELECT 1 AS a) SELECT a FROM x", "EXPLAIN SELECT * FROM t", "EXPLAIN QUERY PLAN SELECT 1", "explain INSERT INTO t(v, n) VALUES ('e', 0)",
-		"PRAGMA table_info(t)", "PRAGMA user_version", "SELECT sqlite_version()", "/* c */ SELECT 2", "-- c\nSELECT 3", "SELECT max(id) FROM t")
+		"PRAGMA table_info(t)", "PRAGMA user_version", "SELECT sqlite_version()", "/* c */ SELECT 2", "-- c\nSELECT 3", "SELECT max(id) FROM t",
+		// semicolons and comment markers inside strings, quoted and bracketed identifiers
+		"SELECT ';'", "SELECT 'a;b' AS \"c;d\"", "SELECT 1 AS [x;y]", "SELECT `a;b` FROM (SELECT 1 AS `a;b`)", "SELECT '/* ', ' */'", "SELECT '--', 2",
+		"SELECT 'it''s;'", "SELECT \"v\" FROM t WHERE v <> ';--'", "SELECT 1 /* ; */ + 1", "SELECT 1 -- ; \n + 1", "SELECT [id] FROM t WHERE id = 1 /* c */")
+}
+
+// tail returns what may follow the last statement of a text.
+func (g *c17Gen) tail() string {
+	return g.of("", "", "", ";", " ; ", "; -- end", " -- end", "/* end */", ";/* end */", " /* ; */", "; /* unterminated", "\n--")
 }
 
 // write returns a statement that changes the database (or, for the last
@@ -94,27 +103,39 @@ func (g *c17Gen) write() (string, string) {
 }
 
 type c17Text struct {
-	SQL  string
-	Kind string // read, write, disguised, write-then-read
-	What string // write label
+	SQL   string
+	Kind  string // read, write, disguised, write-then-read
+	What  string // write label
+	Multi bool   // more than one statement in the text
 }
 
 func (g *c17Gen) text() c17Text {
-	sep := func() string { return g.of(";", "; ", ";\n", " ; ", ";/* c */") }
+	// statement separator: whitespace and comments of both styles directly before and after the ';'
+	// (a comment ending right at the ';', a comment containing ';', adjacent comments, nested-looking ones)
+	sep := func() string {
+		if g.pct(35) {
+			return g.of(";", "; ", ";\n", " ; ")
+		}
+		pre := g.of("", "", " ", "/* c */", " /* c */", "/* ; */", "/**/", "/* a *//* b */", "/* /* x */", "-- c\n", " -- x; y\n", "--\n", "/* c */ ", "\n-- c\n\t")
+		post := g.of("", "", " ", "\n", "/* c */", " /* ; */ ", " -- c\n", "--;\n", "/**/")
+		return pre + ";" + post
+	}
 	switch r := g.rng.IntN(100); {
 	case r < 25:
 		s := g.read()
-		if g.pct(20) {
+		multi := g.pct(20)
+		if multi {
 			s += sep() + g.read()
 		}
-		return c17Text{s + g.of("", "", ";"), "read", ""}
+		return c17Text{s + g.tail(), "read", "", multi}
 	case r < 45:
 		w, what := g.write()
-		if g.pct(20) {
+		multi := g.pct(20)
+		if multi {
 			w2, _ := g.write()
 			w += sep() + w2
 		}
-		return c17Text{w + g.of("", "", ";"), "write", what}
+		return c17Text{w + g.tail(), "write", what, multi}
 	case r < 88:
 		// a write behind one or two read-only statements
 		w, what := g.write()
@@ -129,10 +150,10 @@ func (g *c17Gen) text() c17Text {
 		case 5:
 			s = g.of(";", " ;", "/* c */;") + g.read() + sep() + w
 		}
-		return c17Text{s + g.of("", "", ";"), "disguised", what}
+		return c17Text{s + g.tail(), "disguised", what, true}
 	default:
 		w, what := g.write()
-		return c17Text{w + sep() + g.read(), "write-then-read", what}
+		return c17Text{w + sep() + g.read() + g.tail(), "write-then-read", what, true}
 	}
 }
 
@@ -206,7 +227,7 @@ func c17Model(beforeDir string, texts []string) (string, error) {
 }
 
 // c17Judge applies the unified-request oracle. resp are the per-text answers.
-func c17Judge(texts []c17Text, resp []*proto.ExecuteQueryResponse, before, after, beforeDir string) (ok bool, sig, msg string, labels []string) {
+func c17Judge(texts []c17Text, stmts []*proto.Statement, resp []*proto.ExecuteQueryResponse, before, after, beforeDir string) (ok bool, sig, msg string, labels []string) {
 	var executed []string
 	anyErr := false
 	nQ := 0
@@ -215,17 +236,28 @@ func c17Judge(texts []c17Text, resp []*proto.ExecuteQueryResponse, before, after
 		case r.GetError() != "":
 			anyErr = true
 		case r.GetE() != nil:
-			if i < len(texts) {
-				executed = append(executed, texts[i].SQL)
+			if i < len(stmts) {
+				executed = append(executed, stmts[i].Sql)
 			}
 		case r.GetQ() != nil:
-			nQ++
 			if r.GetQ().Error != "" {
 				anyErr = true
+			} else if i < len(stmts) && stmts[i].ForceQuery {
+				// A write with a RETURNING clause (flagged ForceQuery by command/sql.Process, as the
+				// HTTP layer does) is answered with rows by design: it was not treated as read-only.
+				// With several statements in such a text only the last one is stepped (a lost-write
+				// question for C13/C14, not a read that modifies): not judged.
+				if i < len(texts) && texts[i].Multi {
+					labels = append(labels, "judged:skipped-forcequery-multi")
+					return true, "", "", labels
+				}
+				executed = append(executed, stmts[i].Sql)
+			} else {
+				nQ++
 			}
 		}
 	}
-	if len(resp) != len(texts) {
+	if len(resp) != len(stmts) {
 		anyErr = true
 	}
 	if len(executed) == 0 {
@@ -257,6 +289,17 @@ func c17Req(texts []c17Text, tx bool) *proto.Request {
 		r.Statements = append(r.Statements, &proto.Statement{Sql: t.SQL})
 	}
 	return r
+}
+
+// c17Preprocess does to the statements what rqlite's HTTP handlers do before they
+// call the Store: command/sql.Process, which (besides rewriting) sets the SqlExplain
+// and ForceQuery flags the database layer later acts on. /db/request rewrites always,
+// /db/query only at level strong.
+func c17Preprocess(r *proto.Request, endpoint string, strong bool) error {
+	if endpoint == "query" {
+		return csql.Process(r.Statements, strong, strong)
+	}
+	return csql.Process(r.Statements, true, true)
 }
 
 func c17Render(texts []c17Text) string {
@@ -326,6 +369,16 @@ func TestVerif_C17_DB(t *testing.T) {
 				rt.Skip(err)
 			}
 			req := c17Req(texts, tx)
+			pre := g.pct(85)
+			if pre {
+				rec.Label("preprocessed:yes")
+				if err := c17Preprocess(req, path, g.pct(50)); err != nil {
+					rec.Label("preprocess:rejected")
+					continue
+				}
+			} else {
+				rec.Label("preprocessed:no")
+			}
 			if path == "query" {
 				d.Query(req, false)
 				after, err := c17Snap(d.Path(), afterDir)
@@ -351,7 +404,7 @@ func TestVerif_C17_DB(t *testing.T) {
 				rec.Label("request:error-not-judged")
 				continue
 			}
-			ok, sig, msg, labels := c17Judge(texts, resp, before, after, snapDir)
+			ok, sig, msg, labels := c17Judge(texts, req.Statements, resp, before, after, snapDir)
 			for _, l := range labels {
 				rec.Label(l)
 			}
@@ -359,7 +412,7 @@ func TestVerif_C17_DB(t *testing.T) {
 				if rec.KnownHit(sig, "a text whose first statement is read-only is answered as a query but its last statement, a write, is executed on the read-write connection") {
 					return
 				}
-				rt.Fatalf("%s", rec.Violation(sig, "DB.Request(tx=%v) of %s: %s", tx, c17Render(texts), msg))
+				rt.Fatalf("%s", rec.Violation(sig, "DB.Request(tx=%v, preprocessed by command/sql.Process=%v) of %s: %s", tx, pre, c17Render(texts), msg))
 			}
 		}
 	})
@@ -415,7 +468,13 @@ func TestVerif_C17_Store(t *testing.T) {
 			}
 			idx0 := s.DBAppliedIndex()
 			if endpoint == "query" {
-				qr := queryRequestFromStrings(sqls, false, tx, false)
+				qreq := c17Req(texts, tx)
+				if g.pct(85) {
+					if err := c17Preprocess(qreq, "query", lvl == proto.ConsistencyLevel_STRONG); err != nil {
+						continue
+					}
+				}
+				qr := &proto.QueryRequest{Request: qreq}
 				qr.Level = lvl
 				qr.LinearizableTimeout = int64(3 * time.Second)
 				s.Query(ctx, qr)
@@ -436,7 +495,18 @@ func TestVerif_C17_Store(t *testing.T) {
 				}
 				continue
 			}
-			eqr := executeQueryRequestFromStrings(sqls, lvl, false, tx, false)
+			ereq := c17Req(texts, tx)
+			pre := g.pct(85)
+			if pre {
+				rec.Label("preprocessed:yes")
+				if err := c17Preprocess(ereq, "request", true); err != nil {
+					rec.Label("preprocess:rejected")
+					continue
+				}
+			} else {
+				rec.Label("preprocessed:no")
+			}
+			eqr := &proto.ExecuteQueryRequest{Request: ereq, Level: lvl}
 			eqr.LinearizableTimeout = int64(3 * time.Second)
 			resp, _, _, rerr := s.Request(ctx, eqr)
 			after, err := c17Snap(s.dbPath, afterDir)
@@ -453,7 +523,7 @@ func TestVerif_C17_Store(t *testing.T) {
 				rec.Label("request:error-not-judged")
 				continue
 			}
-			ok, sig, msg, labels := c17Judge(texts, resp, before, after, snapDir)
+			ok, sig, msg, labels := c17Judge(texts, ereq.Statements, resp, before, after, snapDir)
 			for _, l := range labels {
 				rec.Label(l)
 			}
@@ -464,7 +534,7 @@ func TestVerif_C17_Store(t *testing.T) {
 				if rec.KnownHit(sig, "a text whose first statement is read-only is answered as a query but its last statement, a write, is executed on the read-write connection") {
 					return
 				}
-				rt.Fatalf("%s", rec.Violation(sig, "Store.Request(level=%s, tx=%v, err=%v) of %q: %s", lvl, tx, rerr, sqls, msg))
+				rt.Fatalf("%s", rec.Violation(sig, "Store.Request(level=%s, tx=%v, preprocessed by command/sql.Process=%v, err=%v) of %q: %s", lvl, tx, pre, rerr, sqls, msg))
 			}
 		}
 	})
